@@ -13,6 +13,17 @@ import (
 // returns the combined output and the error Run would have returned.
 var ExecHook func(name string, args []string, dir string) ([]byte, error)
 
+// ExecStderrHook, when set, says what a simulated command writes on its
+// standard error (notices and warnings of a tool that otherwise succeeds).
+var ExecStderrHook func(name string, args []string) []byte
+
+func (c *Cmd) stderrNoise() []byte {
+	if ExecStderrHook == nil {
+		return nil
+	}
+	return ExecStderrHook(c.Args[0], c.Args[1:])
+}
+
 // LookPathHook answers LookPath when set.
 var LookPathHook func(file string) (string, error)
 
@@ -136,6 +147,9 @@ func (c *Cmd) Run() error {
 	if c.Stdout != nil {
 		c.Stdout.Write(c.out)
 	}
+	if noise := c.stderrNoise(); c.Stderr != nil && len(noise) != 0 {
+		c.Stderr.Write(noise)
+	}
 	return c.err
 }
 
@@ -152,7 +166,7 @@ func (c *Cmd) CombinedOutput() ([]byte, error) {
 		return c.realCmd().CombinedOutput()
 	}
 	c.simulate()
-	return c.out, c.err
+	return append(c.out, c.stderrNoise()...), c.err
 }
 
 func (c *Cmd) Start() error {
@@ -174,6 +188,9 @@ func (c *Cmd) Wait() error {
 	Yield("exec.end")
 	if c.Stdout != nil {
 		c.Stdout.Write(c.out)
+	}
+	if noise := c.stderrNoise(); c.Stderr != nil && len(noise) != 0 {
+		c.Stderr.Write(noise)
 	}
 	return c.err
 }
